@@ -118,6 +118,29 @@ def shape_sets(rng, thorough):
     return sh
 
 
+def geometric_set():
+    """geometric byte frequencies: byte k occurs about 2^(17-k) times, so the rarest bytes get codewords longer than the
+    16-bit chunk of the decoding table; strings start with every byte (rare bytes at bit offset 0), rare bytes follow
+    frequent ones, and some strings are an existing string plus one rare byte"""
+    geo = set()
+    for k, total in enumerate([130000, 65000, 32000, 16000, 8000, 4000, 2000, 1000, 500, 250, 120, 60, 30, 15, 8, 4, 2, 1]):
+        ch = bytes([65 + k])
+        L, used = 1, 0
+        while used + L <= total and L <= 500:
+            geo.add(ch * L)
+            used += L
+            L += 1
+    rare = [bytes([65 + k]) for k in range(10, 18)]
+    for r in rare:
+        geo.add(r + b"A")
+        geo.add(b"A" + r)
+        geo.add(b"AB" + r + b"C")
+        geo.add(r + r)
+        for base in (b"A" * 7, b"B" * 5, b"AB", b"C" * 30):
+            geo.add(base + r)
+    return sorted(geo)
+
+
 # ------------------------------------------------------------------------------ capacity witness
 # Input that puts `used` exactly where Capacity.tla's counterexample needs it with the library's own
 # constant (MEMALLOC * bucketsize): the plain front-coding layout arithmetic is simulated to choose string
